@@ -46,7 +46,7 @@ fn parts_for(id: &str) -> Option<(&'static str, Vec<Box<dyn DynPart>>, Vec<Strin
         "C04" => ("C04", c04::parts(), none),
         "C05" => ("C05", c05::parts(), none),
         "C06" => ("C06", c06::parts(), none),
-        "C07" => ("C07", c07::parts(), none),
+        "C07" => ("C07", c07::parts_all(), none),
         "C08" => ("C08", { let mut p = c08::parts(); p.extend(c08c::parts()); p }, none),
         "C09" => ("C09", c09::parts(), none),
         "C10" => ("C10", c10::parts(), none),
@@ -75,6 +75,10 @@ fn main() {
     }
     if std::env::var("VP_LOUD_PANICS").is_err() {
         install_quiet_panic_hook();
+    }
+    if std::env::var("VP_LOG").is_ok() {
+        // debugging aid: the repository's tracing output (use with `vp replay` / `vp repeat`)
+        tracing_subscriber::fmt().with_max_level(tracing_subscriber::filter::LevelFilter::INFO).with_writer(std::io::stderr).init();
     }
     match args[1].as_str() {
         "check" if !args.iter().any(|a| a == "--worker") => {
